@@ -10,6 +10,7 @@ CONSTANTS
   BugH9 = TRUE
   BugH10 = FALSE
   BugMetaStale = FALSE
+  BugH11 = FALSE
   KRounds = 12
 INVARIANTS TypeOK C43AfterOK
 PROPERTIES C43Keeps
